@@ -162,3 +162,31 @@ def _(u):
         d = u.idx((D,), f"d{i}")
         u.prove(f"wrap.item{i}.extra-is-own-baseline-value", AND(item["extra"].at() == locs.at(i, 0, 0) * 2 + 1, item["locs"].at(d, 1) == locs.at(i, d, 1)))
     u.canary("rollout.all-equal", rewards.at(4) == rewards.at(0))
+
+
+LIT = "rl4co/models/rl/common/base.py"
+
+
+@unit("litmodule.dataloader", file=LIT, func="RL4COLitModule._dataloader_single", props=("C17",))
+def _(u):
+    # the trainer's loaders are built over the dataset it is given, with THAT dataset's collate_fn, the requested batch
+    # size and shuffle flag; a dict of datasets gives one loader per dataset, in order, each with its own batch size
+    made = []
+
+    def loader(dataset, batch_size=None, shuffle=None, num_workers=None, collate_fn=None, **kw):
+        made.append(dict(dataset=dataset, batch_size=batch_size, shuffle=shuffle, collate_fn=collate_fn))
+        return made[-1]
+
+    u.stub(DataLoader=loader)
+    d1, d2 = u.ns(collate_fn="collate-1"), u.ns(collate_fn="collate-2")
+    mod = u.obj(LIT, "RL4COLitModule", dataloader_num_workers=0)
+    u.inline((LIT, "RL4COLitModule._dataloader_single"))
+    r = u.run(LIT, "RL4COLitModule._dataloader", d1, 7, True, selfobj=mod, record=False)
+    u.prove("loader.single", r is made[0] and made[0]["dataset"] is d1 and made[0]["collate_fn"] == "collate-1" and made[0]["batch_size"] == 7 and made[0]["shuffle"] is True)
+    made.clear()
+    r = u.run(LIT, "RL4COLitModule._dataloader", {"a": d1, "b": d2}, [3, 5], False, selfobj=mod, record=False)
+    u.prove("loader.dict", len(r) == 2 and made[0]["dataset"] is d1 and made[1]["dataset"] is d2 and made[0]["batch_size"] == 3 and made[1]["batch_size"] == 5
+            and made[1]["collate_fn"] == "collate-2" and made[0]["shuffle"] is False and mod._attrs["dataloader_names"] == ["a", "b"])
+    made.clear()
+    r = u.run(LIT, "RL4COLitModule._dataloader", {"a": d1, "b": d2}, 4, False, selfobj=mod, record=False)
+    u.prove("loader.dict.int-batch-size", len(r) == 2 and made[0]["batch_size"] == 4 and made[1]["batch_size"] == 4)
